@@ -10,6 +10,7 @@ use std::fmt::Write as _;
 use std::io::{BufRead, Write};
 use std::panic::{catch_unwind, AssertUnwindSafe};
 
+mod c01;
 mod c02;
 
 pub fn unhex(s: &str) -> Vec<u8> {
@@ -35,12 +36,10 @@ fn run_case(line: &str) -> String {
     let mut it = line.split(' ');
     let kind = it.next().unwrap_or("");
     let f: Vec<&str> = it.collect();
-    match kind {
-        "tbl" => c02::table_row(&f),
-        "c02" => c02::events(&f),
-        "c02after" => c02::events_after(&f),
-        _ => format!("UNKNOWN-KIND {kind}"),
-    }
+    // every module answers for the case kinds it knows
+    None.or_else(|| c01::dispatch(kind, &f))
+        .or_else(|| c02::dispatch(kind, &f))
+        .unwrap_or_else(|| format!("UNKNOWN-KIND {kind}"))
 }
 
 fn main() {
@@ -57,7 +56,10 @@ fn main() {
         if line.is_empty() {
             continue;
         }
-        let r = catch_unwind(AssertUnwindSafe(|| run_case(&line))).unwrap_or_else(|_| "PANIC".to_owned());
+        let mut r = catch_unwind(AssertUnwindSafe(|| run_case(&line))).unwrap_or_else(|_| "PANIC".to_owned());
+        if r.is_empty() {
+            r.push('-');
+        }
         writeln!(out, "{r}").expect("write");
     }
     out.flush().expect("flush");
